@@ -104,6 +104,9 @@ func ParseHeaderDirective(header http.Header) *HeaderDirectives {
 				hd.IfRange.value = typeutils.Some(etagIfRange)
 			}
 		case "Range":
+			// Several Range field lines are one comma-separated list (RFC 9110 section 5.3): looking at
+			// the first line only would serve one of several requested ranges as if it were the only one.
+			value = strings.Join(values, ",")
 			if rh, err := parseRangeHeader(value); err == nil {
 				hd.Range.value = typeutils.Some(rh)
 			} else {
